@@ -150,6 +150,10 @@ def method_src(mid, m, self_flag=False):
     elif k == "bad_next":
         lines.append("    g = call_next")
         lines.append(f"    return ({mid!r},)")
+    elif k == "mut_rec":
+        # the harness may change the method set from inside this body (MUT), then the body recurses
+        lines.append("    MUT()")
+        lines.append(f"    return ({mid!r}, [recurse(k) for k in {first}.kids])")
     elif k == "rec_leaf":
         # uses recurse (so the method is source-rewritten) but on nothing new
         lines.append(f"    return ({mid!r}, [recurse(k) for k in ()])")
@@ -169,6 +173,10 @@ from ovld.types import Whatever
 
 DEFAULT = None
 FN = None
+
+
+def MUT():
+    pass
 
 
 class _V:
